@@ -703,4 +703,35 @@ REGISTRY = {
                 'vectors and clauses) or one identity',
         'explanation': 'bounded native contract of the gate interface',
     },
+    'C03': {
+        'level': 'other',
+        'engine': 'pybound',
+        'technique': 'bounded native contract on the real synthesis, '
+                     'state-preparation and state-map workflows '
+                     '(build_workflow, run in-process)',
+        'level_text': 'for the listed targets (Haar, identity, permutation, '
+                      'diagonal and near-identity unitaries of 1-2 qubits, '
+                      'thorough: 3 qubits; one qutrit; basis, random, GHZ and '
+                      'W states; state systems of 1, 2 and 4 pairs), default '
+                      'and line/CZ models, level 1 (thorough: 1-4) and fixed '
+                      'seeds: the returned circuit has the target\'s '
+                      'radixes, reaches the target within 1e-6 up to one '
+                      'global phase, and uses only gates of the model; four '
+                      'cases start from the one-qubit circuit compile() '
+                      'hands over for members of a list input; bounded '
+                      'stand-in, nothing is proved',
+        'level_note': 'convergence of numerical synthesis for every input '
+                      'cannot be discharged by any verifier here: this is a '
+                      'bounded run of the optimiser on fixed targets and '
+                      'seeds (a different target may still fail to '
+                      'converge); compile()\'s own argument handling, the '
+                      'Compiler client and the ordering of list results are '
+                      'not exercised',
+        'parts': [
+            {'kind': 'custom', 'module': 'pybound.c03_checks'},
+        ],
+        'rule': 'one evaluation = one target compiled through the real '
+                'workflow',
+        'explanation': 'bounded native contract of the synthesis workflows',
+    },
 }
